@@ -781,3 +781,60 @@ def check_keeplive(facts):
                 break
     r.floor("arm_selections", n, 1)
     return r
+
+
+# ---- CASESRC --------------------------------------------------------------------------------
+
+CASESRC_BUILDERS = {
+    "ir::Node::make_always_fails": "the empty set (matches nothing)",
+    "optimizer::try_reduce_bracket": "members are the code points of a bracket whose intervals were already case-closed by "
+                                     "unicode::add_icase_code_points when the class was parsed",
+}
+
+
+def check_casesrc(facts):
+    from . import backref
+    r = RuleResult("CASESRC", "a CharSet (ir::Node::CharSet / literal::Piece::CharSet) is the case-fold class of one code point: every site "
+                              "that constructs one takes its members from unicode::expand_code_point (the fold tables TABLES checks), copies an "
+                              "existing CharSet, or is one of two reviewed builders (the empty set; a small bracket that was case-closed when "
+                              "parsed). Members computed any other way (ASCII arithmetic, literals) bypass the tables: U+212A/U+017F drop out of "
+                              "k/s under `iu` and the relation stops being symmetric")
+    n = 0
+    ntab = 0
+    for fn in sorted(facts.body_names()):
+        b = facts.body(fn)
+        for bi, i, s in b.iter_stmts():
+            if s["k"] != "assign" or s["rv"]["k"] != "agg":
+                continue
+            a = s["rv"]
+            if a.get("variant") != "CharSet" or a.get("adt") not in ("ir::Node", "literal::Piece"):
+                continue
+            ops = a.get("ops") or []
+            if not ops or ops[0].get("k") not in ("copy", "move"):
+                r.fail("%s CharSet members" % fn, "CharSet built from a constant operand", facts.loc(fn, s["line"]))
+                continue
+            n += 1
+            root, proj = b.root_of(ops[0]["pl"]["l"])
+            srcs = backref.value_sources(b, root)
+            key = "%s %s::CharSet members" % (fn, a["adt"].split("::")[-1])
+            bad = []
+            for src in srcs:
+                if src == ("call", "unicode::expand_code_point"):
+                    ntab += 1
+                    continue
+                if src == ("call", "std::clone::Clone::clone"):
+                    continue
+                if src[0] == "param" and any(isinstance(p, dict) and p.get("as") == "CharSet" for p in proj):
+                    continue
+                if src[0] == "call" and src[1].startswith("std::vec::Vec::<T>::new") and fn in CASESRC_BUILDERS:
+                    continue
+                bad.append(src)
+            if bad:
+                r.fail(key, "the members of this CharSet do not come from the fold tables (unicode::expand_code_point) or an existing CharSet "
+                            "but from %s" % sorted("/".join(x) for x in bad), facts.loc(fn, s["line"]))
+            else:
+                r.ok(key, "members from %s" % sorted("/".join(x) for x in srcs))
+                r.sample({"function": fn, "line": s["line"], "sources": sorted("/".join(x) for x in srcs)})
+    r.floor("charset_constructions", n, 6)
+    r.floor("constructions_from_expand_code_point", ntab, 1)
+    return r
